@@ -17,7 +17,7 @@ use vpmodel::spec::ChainSpec;
 pub const DEF: PropDef = PropDef {
     id: "C02",
     level: "exploration",
-    rule: "part 1 (bounded-exhaustive): for every tip height T<=Tmax, every accepted option combination (none; -s in 0..=T; -e in 1..=T+3; both with s<e) x 5 callbacks x 2 coins on a fixed generated chain, plus the csvdump runs again with --verify on a chain that starts at the real genesis block; part 3 (progress-line-due): 10 runs (5 callbacks, with and without a range) that are stopped for 10.5 s right after the first block is announced, so that the driver's 10-second progress line falls due inside the block loop; part 4 (thousand-blk-files): a 1300-block chain stored one block per blk file, processed whole and in ranges under RLIMIT_NOFILE=256 (real chains have thousands of blk files against a default limit of 1024); part 5 (chain-longer-than-2^16): a 66 200-block chain, whole for every callback and in ranges that start, end or lie across heights 65535 / 65536; part 2 (random): chains up to 60 blocks in generated physical layouts (1..60 blk files, any order), base heights up to 10^7 and at the 5-byte VarInt boundary, 2^24, 2^31 (segment chains), random (s,e). Oracle: callback output == reference model applied to exactly heights s..=min(e,T); file names carry s and min(e,T); 'Processed blocks up to height' == min(e,T); for csvdump/opreturn the range output equals the row slice of the whole-chain output. Non-trivial = a range option is given and at least one block of the chain is excluded; distinct by (T, base, s, e, callback, coin).",
+    rule: "part 1 (bounded-exhaustive): for every tip height T<=Tmax, every accepted option combination (none; -s in 0..=T; -e in 1..=T+3; both with s<e) x 5 callbacks x 2 coins on a fixed generated chain, plus the csvdump runs again with --verify on a chain that starts at the real genesis block; part 3 (progress-line-due): 15 runs (5 callbacks: whole chain, a range, and --verify from height 1..5) that are stopped for 10.5 s right after the first block is announced, so that the driver's 10-second progress line falls due inside the block loop; part 4 (thousand-blk-files): a 1300-block chain stored one block per blk file, processed whole and in ranges under RLIMIT_NOFILE=256 (real chains have thousands of blk files against a default limit of 1024); part 5 (chain-longer-than-2^16): a 66 200-block chain, whole for every callback and in ranges that start, end or lie across heights 65535 / 65536; part 2 (random): chains up to 60 blocks in generated physical layouts (1..60 blk files, any order), base heights up to 10^7 and at the 5-byte VarInt boundary, 2^24, 2^31 (segment chains), random (s,e). Oracle: callback output == reference model applied to exactly heights s..=min(e,T); file names carry s and min(e,T); 'Processed blocks up to height' == min(e,T); for csvdump/opreturn the range output equals the row slice of the whole-chain output. Non-trivial = a range option is given and at least one block of the chain is excluded; distinct by (T, base, s, e, callback, coin).",
     assumptions: &["options the CLI accepts: s<e when both are given; s <= T (a start beyond the tip is outside the statement)", "for chains whose first indexed height is > 0 a --start at or above that height is given"],
     run,
     replay,
@@ -216,6 +216,9 @@ fn run(eng: &Engine, a: &Args) {
         let scripts: Vec<Vec<u8>> = (0..6000usize).map(|i| if i % 7 == 3 { vec![0x6a, 0x03, b'a' + (i % 26) as u8, b'0' + (i % 10) as u8, b'!'] } else { let mut s = vec![0x76, 0xa9, 0x14]; s.extend([(i & 0xff) as u8, (i >> 8) as u8].iter().cycle().take(20)); s.extend([0x88, 0xac]); s }).collect();
         let chain = vpmodel::spec::chain_from_scripts([Coin::Bitcoin, Coin::Litecoin][k % 2], &scripts, &[1000, 2500], 1, 1, 0, 1_400_000_000);
         slow.push(Case { chain: chain.clone(), start: None, end: None, cb: *cb, layout: None, verify: false, pause: true, nofile: None });
+        // the same with --verify (from a height above the first indexed one, so that any block 0 will do): the checks
+        // of every later block still need the index records of the blocks before it
+        slow.push(Case { chain: chain.clone(), start: Some(1 + k as u64), end: None, cb: *cb, layout: None, verify: true, pause: true, nofile: None });
         slow.push(Case { chain, start: Some(300), end: Some(5700), cb: *cb, layout: None, verify: false, pause: true, nofile: None });
     }
     eng.enumerate("progress-line-due", slow, check);
